@@ -48,7 +48,7 @@ const CLASSES: &[&str] = &[
     "roundtrip",
 ];
 
-fn hc(thorough: bool) -> HistCheck<'static> {
+pub fn hc(thorough: bool) -> HistCheck<'static> {
     HistCheck {
         focus: "C06",
         profile: profile(thorough),
